@@ -9,6 +9,7 @@ specification (Spec.spec_step) by vm_compute.  The same kind of sequences also r
 quick tier, 2000 each in the thorough tier) against the tie-tolerant specification oracle.
 """
 import asyncio
+import contextvars
 import glob
 import json
 import logging
@@ -115,6 +116,36 @@ class Impl:
             def is_samples_supported(self):
                 return True
 
+        class GatedDriver(MemDriver):
+            """the same in-memory driver whose sample calls suspend at two gates (before and after the real call) when they are
+            made on behalf of a part of an overlap block; the harness scheduler opens one gate at a time"""
+
+            async def get_samples_by_timestamp(self, *a, **kw):
+                await at_gate(1)
+                r = list(await super().get_samples_by_timestamp(*a, **kw))
+                await at_gate(2)
+                return r
+
+            async def get_samples_slice(self, *a, **kw):
+                await at_gate(1)
+                r = list(await super().get_samples_slice(*a, **kw))
+                await at_gate(2)
+                return r
+
+            async def remove_samples(self, *a, **kw):
+                await at_gate(1)
+                r = await super().remove_samples(*a, **kw)
+                await at_gate(2)
+                return r
+
+            async def save_sample(self, *a, **kw):
+                await at_gate(1)
+                r = await super().save_sample(*a, **kw)
+                await at_gate(2)
+                return r
+
+        self.GatedDriver = GatedDriver
+
         class HPort(core_ports.Port):
             def __init__(self, port_id, integer=None):
                 super().__init__(port_id)
@@ -154,7 +185,7 @@ class Impl:
 
     async def make_driver(self, kind):
         if kind == 'json':
-            return self.MemDriver()
+            return self.GatedDriver()
         if kind == 'redis':
             import fakeredis
             import redis as python_redis
@@ -302,6 +333,32 @@ def apply_settings(impl, st):
     impl.settings.core.history_janitor_interval = int(st['janitor_interval']) if 'janitor_interval' in st else janitor
 
 
+CUR_PART = contextvars.ContextVar('c18_part', default=None)
+
+
+class Part:
+    """one request of an overlap block: a task that stops at the driver gates"""
+
+    def __init__(self, pid, req):
+        self.id, self.req = pid, req
+        self.task = None
+        self.reached = None       # future completed when the task stops at a gate
+        self.release = None       # event the task waits on at the gate
+        self.gate = 0             # 0 not started, 1 before the driver call, 2 after it, 3 finished
+        self.result = None
+
+
+async def at_gate(n):
+    part = CUR_PART.get()
+    if part is None:
+        return                    # a request that runs alone: no suspension added
+    part.gate = n
+    part.release = asyncio.Event()
+    if part.reached is not None and not part.reached.done():
+        part.reached.set_result(n)
+    await part.release.wait()
+
+
 async def run_impl(impl, cases, driver_kind='json'):
     """-> per case: list of observations {'resp':..., 'store': [...]|None (None = unchanged), 'cache': [...], 'note':...}"""
     h = impl.core_history
@@ -338,42 +395,86 @@ async def run_impl(impl, cases, driver_kind='json'):
                 await impl.persist.save_sample(COLL, OID_NAMES[oid], ts, q / 4)
             prev = await dump_store(driver)
             obs = []
-            for req in case['requests']:
-                out, note = None, None
+
+            async def execute(req):
+                """one request through the real functions -> canonical response"""
                 try:
                     if req['op'] == 'get':
                         out = await impl.api_ports.get_port_history(impl.request('GET', OID_NAMES[req['port']], req['query']),
                                                                     OID_NAMES[req['port']])
-                        resp = canon_response(req, out, None, impl)
-                    elif req['op'] == 'delete':
+                        return canon_response(req, out, None, impl)
+                    if req['op'] == 'delete':
                         out = await impl.api_ports.delete_port_history(
                             impl.request('DELETE', OID_NAMES[req['port']], req['query']), OID_NAMES[req['port']])
-                        resp = canon_response(req, out, None, impl)
-                    elif req['op'] == 'change':
+                        return canon_response(req, out, None, impl)
+                    if req['op'] == 'change':
                         port = ports[req['port']]
                         kind = PORTS[req['port']][1]
                         q = req['value']
                         new = None if q is None else (bool(q) if kind == 'KBool' else (q // 4 if kind == 'KInt' else q / 4))
                         old = port.get_last_read_value()
                         port.set_last_read_value(new)
+                        before = set(impl.event_handlers._active_handle_tasks)
                         await port.trigger_value_change(old, new)
-                        tasks = set(impl.event_handlers._active_handle_tasks)
+                        tasks = set(impl.event_handlers._active_handle_tasks) - before
                         if tasks:
                             await asyncio.wait(tasks)
-                        resp = ['none']
-                    elif req['op'] == 'tick':
+                        return ['none']
+                    if req['op'] == 'tick':
                         Clock.now_ms += req['ms']
-                        resp = ['none']
-                    else:
-                        raise ValueError(req['op'])
+                        return ['none']
+                    raise ValueError(req['op'])
                 except Exception as e:  # noqa: BLE001
-                    resp = canon_response(req, None, e, impl)
+                    return canon_response(req, None, e, impl)
+
+            async def observe(event, req, index, resp):
+                nonlocal prev
                 cur = await dump_store(driver)
                 cache = dump_cache(impl)
+                note = None
                 if cur is None or cache is None:
                     note = 'store or cache holds a value outside the encodable domain'
-                obs.append({'resp': resp, 'store': None if cur == prev else cur, 'cache': cache or [], 'note': note})
+                obs.append({'event': event, 'req': req, 'index': index, 'resp': resp,
+                            'store': None if cur == prev else cur, 'cache': cache or [], 'note': note})
                 prev = cur
+
+            async def advance(part, index):
+                """let one part run its next segment alone; log it as the event it turned out to be"""
+                loop = asyncio.get_running_loop()
+                part.reached = loop.create_future()
+                before = part.gate
+                if part.task is None:
+                    async def body():
+                        CUR_PART.set(part)
+                        return await execute(part.req)
+                    part.task = asyncio.ensure_future(body())
+                else:
+                    part.release.set()
+                await asyncio.wait({part.task, part.reached}, return_when=asyncio.FIRST_COMPLETED)
+                done = part.task.done()
+                resp = part.task.result() if done else ['none']
+                if done:
+                    part.gate = 3
+                event = [('start', 'driver', 'finish')[before], part.id]
+                if before == 1 and done:
+                    resp = ['other', 'request ended inside the driver call: %r' % (resp,)]
+                elif before == 2 and not done:
+                    resp = ['other', 'request suspended again after the driver call']
+                await observe(event, part.req, index, resp)
+
+            next_id = 1
+            for index, req in enumerate(case['requests']):
+                if req['op'] != 'overlap':
+                    await observe(['seq'], req, index, await execute(req))
+                    continue
+                parts = []
+                for r in req['parts']:
+                    parts.append(Part(next_id, r))
+                    next_id += 1
+                order = [i for i in req['schedule'] if 0 <= i < len(parts)]
+                for i in order + [i for i in range(len(parts)) for _ in range(3)]:
+                    if parts[i].gate < 3:
+                        await advance(parts[i], index)
             results.append(obs)
     finally:
         apply_settings(impl, {})
@@ -454,9 +555,18 @@ def c_obs(o):
     return 'O %s %s %s' % (c_response(o['resp']), store, cache)
 
 
+def c_event(o):
+    ev = o['event']
+    if ev[0] == 'seq':
+        return 'SEQ (%s)' % c_request(o['req'])
+    if ev[0] == 'start':
+        return 'ST %d (%s)' % (ev[1], c_request(o['req']))
+    return '%s %d' % ('DR' if ev[0] == 'driver' else 'FI', ev[1])
+
+
 def c_case(case, obs, impl):
     cfg = '(CFG %s)' % ' '.join(coq.boolean(bool(case['on_change'].get(str(p)))) for p in PORTS)
-    steps = coq.lst(list(zip(case['requests'], obs)), lambda ro: '(%s, %s)' % (c_request(ro[0]), c_obs(ro[1])))
+    steps = coq.lst(obs, lambda o: '(%s, %s)' % (c_event(o), c_obs(o)))
     return 'CASE %s %s %s\n   %s' % (cfg, coq.lst(case['store'], c_sample), c_int(case['now0']), steps)
 
 
@@ -471,7 +581,7 @@ def header(impl):
     )
 
 
-def evaluate(ctx, impl, cases, name, driver_kind='json', strict=True, shard=200):
+def evaluate(ctx, impl, cases, name, driver_kind='json', strict=True, shard=200, extra=None):
     """run the implementation and the Coq model/spec on the cases.
     -> (observations, {case index: step} model disagreements, {case index: step} spec contradictions, error text or None)"""
     t0 = _time.time()
@@ -484,7 +594,7 @@ def evaluate(ctx, impl, cases, name, driver_kind='json', strict=True, shard=200)
         body = ';\n  '.join(c_case(c, o, impl) for c, o in zip(cases[i:i + shard], observations[i:i + shard]))
         shards.append('Definition cases : list case := [\n  %s].\n' % body)
         offsets.append(i)
-    evals = ['bad_model cases', 'bad_spec cases'] if strict else ['bad_spec_relaxed cases']
+    evals = ['bad_model cases', 'bad_spec cases', 'bad_sched cases'] if strict else ['bad_spec_relaxed cases']
     t0 = _time.time()
     outs = coq.eval_shards(ctx.workdir, name, header(impl), shards, evals, jobs=2)
     if len(cases) > 20:
@@ -497,19 +607,21 @@ def evaluate(ctx, impl, cases, name, driver_kind='json', strict=True, shard=200)
             continue
         if strict:
             for code in lists[0]:
-                bad_model[off + code // 100] = code % 100
+                bad_model[off + code // 1000] = code % 1000
             for code in lists[1]:
-                bad_spec[off + code // 100] = code % 100
+                bad_spec[off + code // 1000] = code % 1000
+            if extra is not None:
+                extra.setdefault('bad_sched', set()).update(off + code // 1000 for code in lists[2])
         else:
             for code in lists[0]:
-                bad_spec[off + code // 100] = code % 100
+                bad_spec[off + code // 1000] = code % 1000
     return observations, bad_model, bad_spec, err
 
 
 # ----------------------------------------------------------------------------------------------------------------
 # generation
 
-def gen_case(rng, min_age):
+def gen_case(rng, min_age, overlaps=True):
     unreal = rng.random() < 0.04
     now0 = rng.choice([1_000_000_000, 1_546_304_400_000 - 5]) if unreal else NOW0 + rng.randrange(0, 10) * 1000 + rng.randrange(0, 3)
     anchors = [now0 - 3 * min_age, now0 - 2 * min_age, now0 - min_age - 1500, now0 - min_age, now0 - min_age // 2, now0 - 2000]
@@ -615,10 +727,92 @@ def gen_case(rng, min_age):
             ms = rng.choice([0, 1, 2, 1000, min_age - 1, min_age, min_age + 1, min_age + 1500, 2 * min_age, rng.randint(0, 3 * min_age)])
             clock += ms
             requests.append({'op': 'tick', 'ms': ms})
+    if overlaps and rng.random() < 0.4:
+        for _ in range(rng.choice([1, 1, 2])):
+            block = gen_overlap(rng, min_age, now0, focus, store, pool, tspool)
+            at = rng.randint(0, len(requests))
+            requests[at:at] = block
     on_change = {str(p): (rng.random() < (0.85 if p == focus else 0.5)) for p in PORTS}
     settings = {'debug_log': rng.random() < 1 / 3, 'debug': rng.random() < 0.25,
                 'janitor_interval': rng.choice([3600, 3600, 1, 60, 86400])}
     return {'now0': now0, 'on_change': on_change, 'store': store, 'requests': requests, 'settings': settings}
+
+
+def gen_overlap(rng, min_age, now0, focus, store, pool, tspool):
+    """an overlap block (2-3 requests on a suspending driver, with the order in which their segments run) followed by
+    re-queries that run alone.  Each part has three segments (start, driver call, finish); `schedule` lists part indices,
+    one occurrence = one segment.  A third of the blocks is the pattern "by-timestamp query suspended in the driver while
+    a DELETE covering its answer completes; ask again afterwards"."""
+    mine = [s for s in store if s[0] == focus]
+    old = [s for s in mine if now0 - s[1] > min_age + 10]
+
+    def byts(ts):
+        return {'op': 'get', 'port': focus, 'query': {'timestamps': ','.join(str(t) for t in ts)}}
+
+    def delete(a, b):
+        return {'op': 'delete', 'port': focus, 'query': {'from': str(a), 'to': str(b)}}
+
+    def some_ts(k):
+        return [rng.choice(tspool if rng.random() < 0.7 else pool) for _ in range(k)]
+
+    def change_value():
+        kind = PORTS[focus][1]       # a value the port can have: booleans 0/1, integers, quarters
+        return rng.choice([0, 4]) if kind == 'KBool' else 4 * rng.randint(-5, 20) if kind == 'KInt' else rng.randint(-40, 80)
+
+    if old and rng.random() < 0.35:
+        smp = rng.choice(old)
+        t = smp[1] + rng.choice([0, 0, 1, 2])
+        extra = some_ts(rng.choice([0, 0, 1, 2]))
+        asked = extra[:1] + [t] + extra[1:]
+        a = max(0, smp[1] - rng.choice([0, 0, 1, 1000]))
+        parts = [byts(asked), delete(a, smp[1] + 1 + rng.choice([0, 0, 1, 500]))]
+        schedule = rng.choice([[0, 0, 1, 1, 1, 0], [0, 0, 1, 1, 0, 1], [0, 1, 1, 0, 1, 0], [1, 0, 1, 0, 1, 0]])
+        if rng.random() < 0.3:
+            parts.append({'op': 'change', 'port': focus, 'value': change_value()})
+            schedule = list(schedule)
+            for _ in range(3):
+                schedule.insert(rng.randint(0, len(schedule)), 2)
+        after = [byts([t]), byts(asked[::-1])]
+    else:
+        parts = []
+        for _ in range(rng.choice([2, 2, 3])):
+            r = rng.random()
+            if r < 0.45:
+                parts.append(byts(some_ts(rng.choice([1, 2, 3, 4]))))
+            elif r < 0.7:
+                a, b = sorted([rng.choice(pool), rng.choice(pool)])
+                parts.append(delete(a, b + rng.choice([0, 1])))
+            elif r < 0.85:
+                parts.append({'op': 'change', 'port': focus, 'value': change_value()})
+            else:
+                a, b = sorted([rng.choice(pool), rng.choice(pool)])
+                q = {'from': str(a), 'to': str(b + 1)}
+                if rng.random() < 0.5:
+                    q['limit'] = rng.choice(['1', '2', '5'])
+                parts.append({'op': 'get', 'port': focus, 'query': q})
+        schedule = [i for i in range(len(parts)) for _ in range(3)]
+        rng.shuffle(schedule)
+        asked = [int(t) for p_ in parts if p_['op'] == 'get' and 'timestamps' in p_['query']
+                 for t in p_['query']['timestamps'].split(',')]
+        after = [byts(asked[:4])] if asked else []
+        if rng.random() < 0.5:
+            after.append({'op': 'get', 'port': focus, 'query': {'from': '0'}})
+    if not os.environ.get('VERIF_C18_DELETE_RACE'):
+        # the cache invalidation of remove_samples and the removal itself are adjacent (no suspension between them in the
+        # drivers that exist); a request scheduled in between hits the race described in notes/C18.md
+        fixed, seen = [], set()
+        for i in schedule:
+            if parts[i]['op'] == 'delete':
+                if i in seen:
+                    continue
+                seen.add(i)
+                fixed += [i, i]
+            else:
+                fixed.append(i)
+        for i in seen:
+            fixed.append(i)
+        schedule = fixed
+    return [{'op': 'overlap', 'parts': parts, 'schedule': schedule}] + after
 
 
 def fixed_cases(min_age):
@@ -651,12 +845,24 @@ def describe_request(r):
         return 'DELETE /ports/%s/history?%s' % (OID_NAMES[r['port']], '&'.join('%s=%s' % kv for kv in r['query'].items()))
     if r['op'] == 'change':
         return 'value of %s changes to %s' % (OID_NAMES[r['port']], None if r['value'] is None else r['value'] / 4)
+    if r['op'] == 'overlap':
+        return 'overlapping requests %s, segments run in the order %s' % (
+            [describe_request(x) for x in r['parts']], r['schedule'])
     return 'clock advances by %d ms' % r['ms']
+
+
+def describe_event(o):
+    ev = o['event']
+    if ev[0] == 'seq':
+        return describe_request(o['req'])
+    what = {'start': 'starts (argument handling, cache lookup / cache invalidation) and suspends at the driver',
+            'driver': 'driver call runs', 'finish': 'resumes after the driver call and answers'}[ev[0]]
+    return 'overlapping request #%d %s: %s' % (ev[1], describe_request(o['req']), what)
 
 
 def classify(case, obs, step):
     """key of a violation: which kind of request, and what is wrong with the answer"""
-    req, o = case['requests'][step], obs[step]
+    req, o = obs[step]['req'], obs[step]
     if req['op'] == 'get' and 'timestamps' in req['query']:
         key = {'request': 'GET history by timestamps'}
         if o['resp'][0] == 'entries':
@@ -672,6 +878,8 @@ def classify(case, obs, step):
         key = {'request': 'value change', 'aspect': 'samples recorded'}
     else:
         key = {'request': req['op'], 'aspect': 'state'}
+    if o['event'][0] != 'seq':
+        key['overlapping'] = True
     return key
 
 
@@ -699,6 +907,13 @@ def shrink(ctx, impl, case, rounds=10):
                     if k in r['query']:
                         q = {a: b for a, b in r['query'].items() if a != k}
                         out.append(('arg', (i, k), dict(c, requests=reqs[:i] + [dict(r, query=q)] + reqs[i + 1:])))
+        for i, r in enumerate(reqs):
+            if r['op'] == 'overlap':
+                for j in range(len(r['parts'])):
+                    parts = r['parts'][:j] + r['parts'][j + 1:]
+                    sched = [x - (x > j) for x in r['schedule'] if x != j]
+                    rep = [dict(r, parts=parts, schedule=sched)] if len(parts) > 1 else list(parts)
+                    out.append(('part', (i, j), dict(c, requests=reqs[:i] + rep + reqs[i + 1:])))
         st = c['store']
         if len(st) > 8:
             half = len(st) // 2
@@ -738,6 +953,7 @@ def summarize(case, obs, step):
         'settings': dict(SETTING_DEFAULTS, **(case.get('settings') or {})),
         'stored_samples': [{'port': OID_NAMES[s[0]], 'timestamp': s[1], 'value': s[2] / 4} for s in case['store']],
         'requests': [describe_request(r) for r in case['requests']],
+        'events': [describe_event(o) for o in obs],
         'failing_step': step,
         'machine': case,
     }
@@ -745,7 +961,15 @@ def summarize(case, obs, step):
 
 def run_batch(ctx, res, impl, cases, name, labels=None, do_shrink=True):
     t0 = _time.time()
-    observations, bad_model, bad_spec, err = evaluate(ctx, impl, cases, name)
+    extra = {}
+    observations, bad_model, bad_spec, err = evaluate(ctx, impl, cases, name, extra=extra)
+    outside = sorted(extra.get('bad_sched', ()))
+    if outside:
+        res['distribution']['schedules outside the premise of the interleaving theorem (sched_okb = false)'] = \
+            res['distribution'].get('schedules outside the premise of the interleaving theorem (sched_okb = false)', 0) + len(outside)
+        if not os.environ.get('VERIF_C18_DELETE_RACE'):
+            res['tie_failures'].append({'note': 'the harness ran a schedule outside the premise of C18_overlap_cache_invariant',
+                                        'case': cases[outside[0]]})
     res['extra']['impl_and_coq_wall_s'] = round(res['extra'].get('impl_and_coq_wall_s', 0) + _time.time() - t0, 2)
     if err:
         res['tie_failures'].append(err)
@@ -754,11 +978,25 @@ def run_batch(ctx, res, impl, cases, name, labels=None, do_shrink=True):
     for case, obs in zip(cases, observations):
         kinds = set()
         cached_hit = False
-        for r, o in zip(case['requests'], obs):
+        n_overlap = sum(1 for r in case['requests'] if r['op'] == 'overlap')
+        if n_overlap:
+            dist['sequences with overlapping requests'] = dist.get('sequences with overlapping requests', 0) + 1
+            if any(o['event'][0] != 'seq' and o['store'] is not None for o in obs):
+                dist['sequences where the store changes while a query is in flight'] = dist.get(
+                    'sequences where the store changes while a query is in flight', 0) + 1
+        for o in obs:
+            r = o['req']
+            if o['event'][0] in ('driver', 'finish'):
+                if o['event'][0] == 'finish':
+                    dist['response:' + o['resp'][0]] = dist.get('response:' + o['resp'][0], 0) + 1
+                continue
             k = ('get-by-timestamps' if 'timestamps' in r['query'] else 'get-range') if r['op'] == 'get' else r['op']
+            if o['event'][0] == 'start':
+                dist['overlapping:' + k] = dist.get('overlapping:' + k, 0) + 1
             kinds.add(k)
             dist['request:' + k] = dist.get('request:' + k, 0) + 1
-            dist['response:' + o['resp'][0]] = dist.get('response:' + o['resp'][0], 0) + 1
+            if not (o['event'][0] == 'start' and o['resp'][0] == 'none'):
+                dist['response:' + o['resp'][0]] = dist.get('response:' + o['resp'][0], 0) + 1
             if k == 'get-by-timestamps' and o['resp'][0] == 'entries':
                 ts = r['query']['timestamps'].split(',')
                 if len(set(ts)) < len(ts):
@@ -774,7 +1012,10 @@ def run_batch(ctx, res, impl, cases, name, labels=None, do_shrink=True):
             dist['sequences with settings.debug'] = dist.get('sequences with settings.debug', 0) + 1
         jk = 'sequences with history_janitor_interval=%d' % st['janitor_interval']
         dist[jk] = dist.get(jk, 0) + 1
-        for i, (r, o) in enumerate(zip(case['requests'], obs)):
+        for i, o in enumerate(obs):
+            r = o['req']
+            if o['event'][0] not in ('seq', 'start'):
+                continue
             # cold misses: requested timestamps that were not in the cache before this request
             if r['op'] == 'get' and 'timestamps' in r['query'] and o['resp'][0] == 'entries':
                 before = {(e[0], e[1]) for e in (obs[i - 1]['cache'] if i else [])}
@@ -789,8 +1030,9 @@ def run_batch(ctx, res, impl, cases, name, labels=None, do_shrink=True):
                             ['by-timestamps with %s uncached timestamps, loggers at DEBUG' % tag] if st['debug_log'] else []):
                         dist[k2] = dist.get(k2, 0) + 1
         for i in range(1, len(obs)):
-            r = case['requests'][i]
-            if r['op'] == 'get' and 'timestamps' in r['query'] and obs[i]['resp'][0] == 'entries':
+            r = obs[i]['req']
+            if obs[i]['event'][0] in ('seq', 'start') and r['op'] == 'get' and 'timestamps' in r['query'] \
+                    and obs[i]['resp'][0] == 'entries':
                 before = {(e[0], e[1]) for e in obs[i - 1]['cache']}
                 if any((r['port'], int(t)) in before for t in r['query']['timestamps'].split(',') if t.lstrip('-').isdigit()):
                     cached_hit = True
@@ -801,7 +1043,7 @@ def run_batch(ctx, res, impl, cases, name, labels=None, do_shrink=True):
         dist[size_key] = dist.get(size_key, 0) + 1
         if len(case['store']) >= 2 and len(kinds) >= 2:
             nontrivial += 1
-    res['evaluations'] += sum(len(c['requests']) for c in cases)
+    res['evaluations'] += sum(1 for obs in observations for o in obs if o['event'][0] in ('seq', 'start'))
     res['distinct_nontrivial'] += nontrivial
     res['extra']['sequences'] = res['extra'].get('sequences', 0) + len(cases)
     if len(res['samples']) < 6:
@@ -813,7 +1055,7 @@ def run_batch(ctx, res, impl, cases, name, labels=None, do_shrink=True):
     for idx, step in sorted(bad_model.items()):
         case = cases[idx]
         res['tie_failures'].append({
-            'note': 'model differs from implementation at step %d: %s' % (step, describe_request(case['requests'][step])),
+            'note': 'model differs from implementation at step %d: %s' % (step, describe_event(observations[idx][step])),
             'label': labels[idx] if labels else None,
             'implementation': observations[idx][step]['resp'],
             'case': case if len(res['tie_failures']) < 3 else '(omitted)',
@@ -827,11 +1069,10 @@ def run_batch(ctx, res, impl, cases, name, labels=None, do_shrink=True):
             o2, _bm, bs2, _e = evaluate(ctx, impl, [small], name + '_min')
             if 0 in bs2:
                 case, obs, step = small, o2[0], bs2[0]
-        req = case['requests'][step]
         res['violations'].append({
             'key': classify(case, obs, step),
-            'what': '%s answered %s, which contradicts the specification (step %d of the replay)' % (
-                describe_request(req), json.dumps(obs[step]['resp'] if obs[step]['store'] is None else
+            'what': '%s answered %s, which contradicts the specification (event %d of the replay)' % (
+                describe_event(obs[step]), json.dumps(obs[step]['resp'] if obs[step]['store'] is None else
                                                   {'response': obs[step]['resp'], 'records_after': obs[step]['store']})[:400], step),
             'case': summarize(case, obs, step),
             'observed': [o['resp'] for o in obs],
@@ -887,13 +1128,13 @@ def other_drivers(ctx, res, impl, n):
     """the same kind of sequences on fakeredis / mongomock, against the tie-tolerant specification oracle"""
     for kind in ('redis', 'mongo'):
         try:
-            cases = [gen_case(ctx.rng, impl.min_age) for _ in range(n)]
+            cases = [gen_case(ctx.rng, impl.min_age, overlaps=False) for _ in range(n)]
             observations, _bm, bad, err = evaluate(ctx, impl, cases, 'c18%s' % kind, driver_kind=kind, strict=False)
         except Exception as e:  # noqa: BLE001
             res['extra']['driver:%s' % kind] = 'not run: %s: %s' % (type(e).__name__, e)
             continue
         res['extra']['driver:%s' % kind] = '%d sequences, %d contradict the tie-tolerant oracle' % (n, len(bad))
-        res['evaluations'] += sum(len(c['requests']) for c in cases)
+        res['evaluations'] += sum(len(o) for o in observations)
         if err:
             res['tie_failures'].append('%s: %s' % (kind, err))
         for idx, step in sorted(bad.items())[:5]:
@@ -903,7 +1144,7 @@ def other_drivers(ctx, res, impl, n):
             res['violations'].append({
                 'key': key,
                 'what': '[%s driver] %s answered %s, which contradicts the specification' % (
-                    kind, describe_request(case['requests'][step]), json.dumps(observations[idx][step]['resp'])[:300]),
+                    kind, describe_event(observations[idx][step]), json.dumps(observations[idx][step]['resp'])[:300]),
                 'case': summarize(case, observations[idx], step),
                 'observed': [o['resp'] for o in observations[idx]],
             })
